@@ -1,33 +1,20 @@
 use plonky2::field::goldilocks_field::GoldilocksField as F;
-use plonky2::gates::noop::NoopGate;
-use plonky2::plonk::circuit_builder::CircuitBuilder;
-use plonky2::plonk::circuit_data::CircuitConfig;
 use plonky2::plonk::config::PoseidonGoldilocksConfig;
+use pv::circ;
 type C = PoseidonGoldilocksConfig;
 fn main() {
-    let mut config = CircuitConfig::standard_recursion_config();
-    config.fri_config.num_query_rounds = 8;
-    config.fri_config.proof_of_work_bits = 4;
-    config.security_bits = 28;
-    config.fri_config.reduction_strategy = plonky2::fri::reduction_strategies::FriReductionStrategy::ConstantArityBits(2, 1);
-    let mut b = CircuitBuilder::<F, 2>::new(config.clone());
-    let t = b.add_virtual_target();
-    b.register_public_input(t);
-    let mut x = b.square(t);
-    for _ in 0..10 { x = b.square(x); }
-    let data = b.build::<C>();
-    let common = data.common.clone();
-    // replicate dummy_circuit
-    let degree = common.degree();
-    let num_noop_gate = degree - common.num_public_inputs.div_ceil(8) - 2;
-    let mut builder = CircuitBuilder::<F, 2>::new(common.config.clone());
-    for _ in 0..num_noop_gate { builder.add_gate(NoopGate, vec![]); }
-    for gate in &common.gates { builder.add_gate_to_gate_set(gate.clone()); }
-    for _ in 0..common.num_public_inputs { builder.add_virtual_public_input(); }
-    let c2 = builder.build::<C>().common;
-    println!("deg {} vs {}", common.degree_bits(), c2.degree_bits());
-    println!("gates {:?}\n vs   {:?}", common.gates.iter().map(|g| g.0.id()).collect::<Vec<_>>(), c2.gates.iter().map(|g| g.0.id()).collect::<Vec<_>>());
-    println!("selectors {:?} vs {:?}", common.selectors_info, c2.selectors_info);
-    println!("qdf {} {} nconst {} {} ngc {} {} npp {} {} fri {:?} {:?}", common.quotient_degree_factor, c2.quotient_degree_factor, common.num_constants, c2.num_constants, common.num_gate_constraints, c2.num_gate_constraints, common.num_partial_products, c2.num_partial_products, common.fri_params, c2.fri_params);
-    println!("equal: {}", common == c2);
+    let seed = 1u64;
+    let mut rng = pv::mon::case_rng(seed, 19_001, 1);
+    let bset = pv::gen::boundary_set();
+    for lookups in [false, true] {
+    let opts = circ::GenOpts { n_ops: 60, lookups, hashing: true, extension: true, max_table_len: 70, only_base2: true };
+    let (p, inp) = circ::gen_program(&mut rng, &bset, &opts);
+    let mut cfg = circ::fast_config();
+    cfg.zero_knowledge = false;
+    let built = circ::build::<C>(&p, &cfg);
+    let p1 = built.data.prove(circ::witness_for(&built, &inp)).unwrap();
+    let p2 = built.data.prove(circ::witness_for(&built, &inp)).unwrap();
+    println!("lookups={lookups} wires_cap eq {} zs eq {} quotient eq {} openings eq {} final eq {} pow {} {}", p1.proof.wires_cap == p2.proof.wires_cap, p1.proof.plonk_zs_partial_products_cap == p2.proof.plonk_zs_partial_products_cap, p1.proof.quotient_polys_cap == p2.proof.quotient_polys_cap, p1.proof.openings == p2.proof.openings, p1.proof.opening_proof.final_poly == p2.proof.opening_proof.final_poly, p1.proof.opening_proof.pow_witness, p2.proof.opening_proof.pow_witness);
+    let _ = F::default();
+    }
 }
